@@ -144,7 +144,13 @@ func runC15(w *World) {
 	w.addWebhook("hook0.sim:80", nil)
 	mode := int(w.seed % 8)
 	modeName := []string{"follower-never-caught-up", "follower-caught-up", "read-only", "password-unauthenticated", "password-authenticated", "protected-non-loopback", "protected-loopback", "follower-mid-sync"}[mode]
-	const pass = "s3cret"
+	// the password: short, exactly 64 bytes, or a long token; and for each the near misses that
+	// must never authenticate (a comparison is equality of the whole string, nothing less)
+	pass := []string{"s3cret", strings.Repeat("Ab1/", 16), "tok-" + strings.Repeat("0123456789abcdefghijkl", 4)}[int(w.seed/8)%3]
+	wrongPass := []string{"wrong", pass[:len(pass)-1], pass + "x", pass[:len(pass)-1] + "#", pass + "\x00", strings.ToUpper(pass), pass + pass}
+	if len(pass) > 64 {
+		wrongPass = append(wrongPass, pass[:64], pass[:64]+"tail-of-another-token")
+	}
 	sha := Sha1Sum(c15Script)
 	shaRO := Sha1Sum(c15ScriptRO)
 	var raw []byte
@@ -383,7 +389,9 @@ func runC15(w *World) {
 	wraps = append(wraps, wrapT{"eval-script", scriptWrap("EVAL"), false}, wrapT{"evalna-script", scriptWrap("EVALNA"), false}, wrapT{"evalro-script", scriptWrap("EVALRO"), false})
 	if mode == 3 || mode == 4 {
 		wraps = append(wraps, wrapT{"http+auth", func(a []string) (Cmd, bool) { return Cmd{Raw: httpReq(a, pass), HTTP: true}, true }, true},
-			wrapT{"http+wrongauth", func(a []string) (Cmd, bool) { return Cmd{Raw: httpReq(a, "nope"), HTTP: true}, true }, true})
+			wrapT{"http+wrongauth", func(a []string) (Cmd, bool) {
+				return Cmd{Raw: httpReq(a, wrongPass[int(w.seed/24)%len(wrongPass)]), HTTP: true}, true
+			}, true})
 	}
 	if mode == 5 {
 		v, ok, _ := do(Cmd{Connect: true})
@@ -404,17 +412,19 @@ func runC15(w *World) {
 	}
 	if mode == 4 {
 		// wrong password never authenticates
-		v, ok, ch := do(Cmd{Args: []string{"AUTH", "wrong"}})
-		if !ok || !isErr(v, "invalid password", false) || ch {
-			w.violate("C15/auth", "AUTH with a wrong password answered %s (changed=%v)", v.String(), ch)
-			return
+		for _, wp := range wrongPass {
+			v, ok, ch := do(Cmd{Args: []string{"AUTH", wp}})
+			if !ok || !isErr(v, "invalid password", false) || ch {
+				w.violate("C15/auth", "AUTH with the wrong password %q (the password is %q) answered %s (changed=%v)", wp, pass, v.String(), ch)
+				return
+			}
+			v, ok, _ = do(Cmd{Args: []string{"GET", "fleet", "truck1"}})
+			if !ok || !isErr(v, "authentication required", false) {
+				w.violate("C15/auth", "after AUTH with the wrong password %q, GET answered %s", wp, clipStr(v.String(), 100))
+				return
+			}
 		}
-		v, ok, _ = do(Cmd{Args: []string{"GET", "fleet", "truck1"}})
-		if !ok || !isErr(v, "authentication required", false) {
-			w.violate("C15/auth", "after a wrong AUTH, GET answered %s", clipStr(v.String(), 100))
-			return
-		}
-		v, ok, _ = do(Cmd{Args: []string{"AUTH", pass}})
+		v, ok, _ := do(Cmd{Args: []string{"AUTH", pass}})
 		if !ok || v.String() != "+OK" {
 			w.violate("C15/auth", "AUTH with the right password answered %s", v.String())
 			return
